@@ -1,6 +1,685 @@
-(* TTrieProofs.v — lemmas about Model/TTrie.v *)
+(* TTrieProofs.v — lemmas about Model/TTrie.v: denotation of findNodeAt / Insert / Diff / Iterate. *)
 From Pyro Require Import Model.Base Model.Varint Model.TTrie.
-From Coq Require Import ZifyN ZifyNat ZifyBool.
+From Coq Require Import ZifyN ZifyNat ZifyBool Permutation.
 
-Lemma tt_den_empty k : tt_den tt_empty k = 0.
-Proof. destruct k; reflexivity. Qed.
+Local Open Scope N_scope.
+
+(* ---------------------------------------------------------------------------------------------- *)
+(* strip_prefix *)
+
+Lemma strip_prefix_app a b k :
+  strip_prefix (a ++ b) k = match strip_prefix a k with Some r => strip_prefix b r | None => None end.
+Proof.
+  revert k. induction a as [|x a IH]; intros k; cbn; [reflexivity|].
+  destruct k as [|y k]; [reflexivity|]. destruct (N.eqb x y); [apply IH|reflexivity].
+Qed.
+
+Lemma strip_prefix_self p r : strip_prefix p (p ++ r) = Some r.
+Proof. induction p as [|x p IH]; cbn; [reflexivity|]. rewrite N.eqb_refl. exact IH. Qed.
+
+Lemma strip_prefix_some p k r : strip_prefix p k = Some r -> k = p ++ r.
+Proof.
+  revert k. induction p as [|x p IH]; intros k H; cbn in *.
+  - now inversion H.
+  - destruct k as [|y k]; [discriminate|]. destruct (N.eqb_spec x y) as [->|]; [|discriminate].
+    f_equal. now apply IH.
+Qed.
+
+Lemma strip_prefix_head x p y k : x <> y -> strip_prefix (x :: p) (y :: k) = None.
+Proof. intros H. cbn. destruct (N.eqb_spec x y); [contradiction|reflexivity]. Qed.
+
+(* ---------------------------------------------------------------------------------------------- *)
+(* denotation, unfolded one level *)
+
+Definition under (c : ttnode) (k : bytes) : N :=
+  match strip_prefix (tt_name c) k with Some r => tt_den c r | None => 0 end.
+Definition den_ch (ch : list ttnode) (k : bytes) : N := sumN (map (fun c => under c k) ch).
+
+Lemma tt_den_unfold n v ch k : tt_den (TT n v ch) k = (if is_nil k then v else 0) + den_ch ch k.
+Proof. reflexivity. Qed.
+
+Lemma tt_den_eq t k : tt_den t k = (if is_nil k then tt_value t else 0) + den_ch (tt_ch t) k.
+Proof. destruct t; reflexivity. Qed.
+
+Lemma den_ch_cons c l k : den_ch (c :: l) k = under c k + den_ch l k.
+Proof. reflexivity. Qed.
+
+Lemma den_ch_app l1 l2 k : den_ch (l1 ++ l2) k = den_ch l1 k + den_ch l2 k.
+Proof.
+  induction l1 as [|c l1 IH]; [reflexivity|]. cbn [app]. rewrite !den_ch_cons, IH. lia.
+Qed.
+
+Lemma den_ch_insert_at i x ch k : den_ch (ch_insert_at i x ch) k = under x k + den_ch ch k.
+Proof.
+  unfold ch_insert_at. rewrite den_ch_app, den_ch_cons.
+  rewrite <- (firstn_skipn i ch) at 3. rewrite den_ch_app. lia.
+Qed.
+
+(* ---------------------------------------------------------------------------------------------- *)
+(* well-formedness at the Prop level: first bytes of siblings *)
+
+Definition fbs (ch : list ttnode) : list (option byte) := map first_byte ch.
+Definition tt_wf (t : ttnode) : Prop := tt_wfb t = true.
+
+Lemma fb_is_first b c : fb_is b c = true <-> first_byte c = Some b.
+Proof.
+  unfold fb_is, first_byte. destruct (tt_name c) as [|x l]; [split; discriminate|].
+  destruct (N.eqb_spec x b) as [->|H]; split; intros E; try reflexivity; try discriminate.
+  inversion E; contradiction.
+Qed.
+
+Lemma existsb_fb_is x ch : existsb (fb_is x) ch = true <-> In (Some x) (fbs ch).
+Proof.
+  rewrite existsb_exists. unfold fbs. rewrite in_map_iff. split.
+  - intros (c & Hin & H). exists c. split; [now apply fb_is_first|exact Hin].
+  - intros (c & H & Hin). exists c. split; [exact Hin|now apply fb_is_first].
+Qed.
+
+Lemma fb_distinct_spec ch : fb_distinct ch = true <-> (~ In None (fbs ch) /\ NoDup (fbs ch)).
+Proof.
+  induction ch as [|c ch IH].
+  - cbn. split; [intros _; split; [tauto|constructor]|reflexivity].
+  - cbn [fb_distinct fbs map]. fold (fbs ch).
+    destruct (tt_name c) as [|x l] eqn:E.
+    + assert (Hfc : first_byte c = None) by (unfold first_byte; now rewrite E). rewrite Hfc.
+      split; [discriminate|]. intros [H _]. exfalso. apply H. now left.
+    + assert (Hfc : first_byte c = Some x) by (unfold first_byte; now rewrite E). rewrite Hfc.
+      rewrite andb_true_iff, negb_true_iff, IH. split.
+      * intros (Hx & Hn & Hd). split.
+        -- intros [H|H]; [discriminate|contradiction].
+        -- constructor; [|exact Hd]. intros Hin. apply existsb_fb_is in Hin. congruence.
+      * intros (Hn & Hd). inversion Hd as [|? ? Hx Hd']; subst. split; [|split].
+        -- destruct (existsb (fb_is x) ch) eqn:Ex; [|reflexivity].
+           exfalso. apply Hx. now apply existsb_fb_is.
+        -- intros H. apply Hn. now right.
+        -- exact Hd'.
+Qed.
+
+Lemma tt_wf_unfold n v ch :
+  tt_wf (TT n v ch) <-> (~ In None (fbs ch) /\ NoDup (fbs ch)) /\ Forall tt_wf ch.
+Proof.
+  unfold tt_wf at 1. cbn [tt_wfb]. rewrite andb_true_iff, fb_distinct_spec, forallb_forall, Forall_forall.
+  reflexivity.
+Qed.
+
+Lemma fbs_app l1 l2 : fbs (l1 ++ l2) = fbs l1 ++ fbs l2.
+Proof. apply map_app. Qed.
+
+Lemma fbs_insert_at_perm i x ch : Permutation (fbs (ch_insert_at i x ch)) (first_byte x :: fbs ch).
+Proof.
+  unfold ch_insert_at. rewrite fbs_app. cbn [fbs map].
+  rewrite <- (firstn_skipn i ch) at 3. rewrite fbs_app.
+  symmetry. apply Permutation_middle.
+Qed.
+
+(* a child whose first byte differs from the head of k contributes nothing *)
+Lemma under_other c y k : first_byte c <> None -> first_byte c <> Some y -> under c (y :: k) = 0.
+Proof.
+  unfold under, first_byte. destruct (tt_name c) as [|x l]; [congruence|]. intros _ H.
+  rewrite strip_prefix_head; [reflexivity|congruence].
+Qed.
+
+Lemma under_nil c : first_byte c <> None -> under c [] = 0.
+Proof. unfold under, first_byte. destruct (tt_name c); [congruence|reflexivity]. Qed.
+
+Lemma den_ch_other ch y k :
+  ~ In None (fbs ch) -> ~ In (Some y) (fbs ch) -> den_ch ch (y :: k) = 0.
+Proof.
+  induction ch as [|c ch IH]; intros Hn Hy; [reflexivity|].
+  rewrite den_ch_cons. cbn in Hn, Hy. rewrite under_other, IH; try tauto; try (intros E; rewrite E in *; tauto); try reflexivity.
+Qed.
+
+Lemma den_ch_nil ch : ~ In None (fbs ch) -> den_ch ch [] = 0.
+Proof.
+  induction ch as [|c ch IH]; intros Hn; [reflexivity|].
+  rewrite den_ch_cons. cbn in Hn. rewrite under_nil, IH; try tauto; try (intros E; rewrite E in *; tauto); try reflexivity.
+Qed.
+
+Lemma tt_den_nil t : tt_wf t -> tt_den t [] = tt_value t.
+Proof.
+  destruct t as [n v ch]. intros H. apply tt_wf_unfold in H. destruct H as [[Hn _] _].
+  rewrite tt_den_unfold, den_ch_nil by assumption. cbn. lia.
+Qed.
+
+(* ---------------------------------------------------------------------------------------------- *)
+(* lead_split, key_cmp *)
+
+Lemma lead_split_some b ch l1 c l2 :
+  lead_split b ch = Some (l1, c, l2) -> ch = l1 ++ c :: l2 /\ first_byte c = Some b.
+Proof.
+  revert l1. induction ch as [|c0 ch IH]; intros l1 H; cbn in H; [discriminate|].
+  destruct (lead_split b ch) as [[[l1' x] l2']|] eqn:E.
+  - inversion H; subst. destruct (IH _ eq_refl) as [-> Hf]. split; [reflexivity|exact Hf].
+  - destruct (fb_is b c0) eqn:F; [|discriminate]. inversion H; subst.
+    split; [reflexivity|now apply fb_is_first].
+Qed.
+
+Lemma lead_split_none b ch : lead_split b ch = None -> ~ In (Some b) (fbs ch).
+Proof.
+  induction ch as [|c0 ch IH]; intros H; cbn in *; [tauto|].
+  destruct (lead_split b ch) as [[[l1' x] l2']|] eqn:E; [discriminate|].
+  destruct (fb_is b c0) eqn:F; [discriminate|].
+  intros [Hc|Hc]; [|now apply IH].
+  apply fb_is_first in Hc. congruence.
+Qed.
+
+Definition heads_differ (b kr : bytes) : Prop :=
+  match b, kr with x :: _, y :: _ => x <> y | _, _ => False end.
+
+Lemma key_cmp_spec key lk :
+  match key_cmp key lk with
+  | KEqual => key = lk
+  | KLonger rest => key = lk ++ rest /\ rest <> []
+  | KDiverge a b kr => lk = a ++ b /\ key = a ++ kr /\ heads_differ b kr
+  | KShorter b => lk = key ++ b /\ b <> []
+  end.
+Proof.
+  revert lk. induction key as [|x key IH]; intros [|y lk]; cbn.
+  - reflexivity.
+  - split; [reflexivity|discriminate].
+  - split; [reflexivity|discriminate].
+  - destruct (N.eqb_spec x y) as [->|Hxy].
+    + specialize (IH lk). destruct (key_cmp key lk) as [|r|a b kr|b].
+      * now subst.
+      * destruct IH as [-> Hr]. split; [reflexivity|exact Hr].
+      * destruct IH as (-> & -> & Hd). repeat split; assumption.
+      * destruct IH as [-> Hb]. split; [reflexivity|exact Hb].
+    + repeat split. cbn. congruence.
+Qed.
+
+(* ---------------------------------------------------------------------------------------------- *)
+(* replacing the lead child *)
+
+Lemma NoDup_mid_notin {A} (l1 l2 : list A) x : NoDup (l1 ++ x :: l2) -> ~ In x (l1 ++ l2).
+Proof. intros H. now apply NoDup_remove_2. Qed.
+
+Lemma replace_child n v l1 c l2 x' b key (G : bytes -> N) :
+  tt_wf (TT n v (l1 ++ c :: l2)) ->
+  first_byte c = Some b -> first_byte x' = Some b ->
+  (exists key', key = b :: key') ->
+  tt_wf x' ->
+  (forall k, under x' k = match strip_prefix key k with Some r => G r | None => under c k end) ->
+  tt_wf (TT n v (l1 ++ x' :: l2)) /\
+  forall k, tt_den (TT n v (l1 ++ x' :: l2)) k =
+            match strip_prefix key k with Some r => G r | None => tt_den (TT n v (l1 ++ c :: l2)) k end.
+Proof.
+  intros Hwf Hc Hx (key' & ->) Hwx Hu.
+  apply tt_wf_unfold in Hwf. destruct Hwf as [[Hn Hd] Hall].
+  assert (Hfbs : fbs (l1 ++ x' :: l2) = fbs (l1 ++ c :: l2)).
+  { rewrite !fbs_app. cbn. now rewrite Hc, Hx. }
+  split.
+  - apply tt_wf_unfold. rewrite Hfbs. split; [tauto|].
+    apply Forall_app in Hall. destruct Hall as [H1 H2]. inversion H2; subst.
+    apply Forall_app. split; [assumption|]. constructor; assumption.
+  - intros k. rewrite !tt_den_unfold, !den_ch_app, !den_ch_cons, Hu.
+    destruct (strip_prefix (b :: key') k) as [r|] eqn:E; [|reflexivity].
+    apply strip_prefix_some in E. subst k. cbn [is_nil app].
+    rewrite fbs_app in Hn, Hd. cbn in Hn, Hd. rewrite Hc in Hd.
+    pose proof (NoDup_mid_notin _ _ _ Hd) as Hnot.
+    rewrite !den_ch_other.
+    + specialize (Hu ((b :: key') ++ r)). rewrite strip_prefix_self in Hu.
+      cbn [app] in Hu. lia.
+    + intros H. apply Hn. apply in_or_app. right. now right.
+    + intros H. apply Hnot. apply in_or_app. now right.
+    + intros H. apply Hn. apply in_or_app. now left.
+    + intros H. apply Hnot. apply in_or_app. now left.
+Qed.
+
+(* below a well-formed node, a key starting with the lead child's first byte is found under it *)
+Lemma den_via_lead n v l1 c l2 b k :
+  tt_wf (TT n v (l1 ++ c :: l2)) -> first_byte c = Some b ->
+  tt_den (TT n v (l1 ++ c :: l2)) (b :: k) = under c (b :: k).
+Proof.
+  intros Hwf Hc. apply tt_wf_unfold in Hwf. destruct Hwf as [[Hn Hd] _].
+  rewrite fbs_app in Hn, Hd. cbn in Hn, Hd. rewrite Hc in Hd.
+  pose proof (NoDup_mid_notin _ _ _ Hd) as Hnot.
+  rewrite tt_den_unfold, den_ch_app, den_ch_cons. cbn [is_nil].
+  rewrite !den_ch_other; [lia| | | |].
+  - intros H. apply Hn. apply in_or_app. right. now right.
+  - intros H. apply Hnot. apply in_or_app. now right.
+  - intros H. apply Hn. apply in_or_app. now left.
+  - intros H. apply Hnot. apply in_or_app. now left.
+Qed.
+
+(* ---------------------------------------------------------------------------------------------- *)
+(* findNodeAt *)
+
+Definition fn_ok (f : ttnode -> ttnode) (tn : ttnode) (key : bytes) (G : bytes -> N) : Prop :=
+  forall d, tt_wf d -> (forall r, tt_den d r = tt_den tn (key ++ r)) ->
+            tt_wf (f d) /\ tt_name (f d) = tt_name d /\ forall r, tt_den (f d) r = G r.
+
+Lemma same_children_den n1 n2 v ch k : tt_den (TT n1 v ch) k = tt_den (TT n2 v ch) k.
+Proof. reflexivity. Qed.
+
+Lemma find_node_at_spec : forall fuel key f tn G,
+  (length key < fuel)%nat -> tt_wf tn -> fn_ok f tn key G ->
+  let tn' := tt_find_node_at_fuel fuel key f tn in
+  tt_wf tn' /\ tt_name tn' = tt_name tn /\
+  forall k, tt_den tn' k = match strip_prefix key k with Some r => G r | None => tt_den tn k end.
+Proof.
+  induction fuel as [|fuel IH]; intros key f tn G Hfuel Hwf Hf; [lia|].
+  destruct key as [|k0 key'].
+  - (* len(key) == 0 *)
+    cbn. destruct (Hf tn Hwf) as (H1 & H2 & H3); [intros r; reflexivity|].
+    repeat split; assumption.
+  - cbn [tt_find_node_at_fuel]. destruct tn as [n v ch].
+    destruct (lead_split k0 ch) as [[[l1 c] l2]|] eqn:EL.
+    + (* a lead exists *)
+      apply lead_split_some in EL. destruct EL as [-> Hc].
+      destruct c as [lk cv cch].
+      pose proof Hwf as Hwf0.
+      apply tt_wf_unfold in Hwf. destruct Hwf as [[Hn Hd] Hall].
+      assert (Hwc : tt_wf (TT lk cv cch)).
+      { apply Forall_app in Hall. destruct Hall as [_ H2]. now inversion H2. }
+      assert (Hlk : exists lk', lk = k0 :: lk').
+      { unfold first_byte in Hc. cbn in Hc. destruct lk; [discriminate|]. inversion Hc. eauto. }
+      destruct Hlk as [lk' ->].
+      pose proof (key_cmp_spec (k0 :: key') (k0 :: lk')) as Hcmp.
+      (* what the key denotes below tn *)
+      assert (Hden : forall r, tt_den (TT n v (l1 ++ TT (k0 :: lk') cv cch :: l2)) ((k0 :: key') ++ r)
+                               = under (TT (k0 :: lk') cv cch) ((k0 :: key') ++ r)).
+      { intros r. cbn [app]. apply den_via_lead; assumption. }
+      destruct (key_cmp (k0 :: key') (k0 :: lk')) as [|rest|a b kr|b] eqn:EC.
+      * (* case 2 *)
+        inversion Hcmp; subst lk'. clear Hcmp.
+        destruct (Hf (TT (k0 :: key') cv cch) Hwc) as (H1 & H2 & H3).
+        { intros r. rewrite Hden. unfold under. cbn [tt_name]. now rewrite strip_prefix_self. }
+        cbn [tt_name] in H2.
+        destruct (replace_child n v l1 (TT (k0 :: key') cv cch) l2 (f (TT (k0 :: key') cv cch)) k0 (k0 :: key') G)
+          as [R1 R2]; try assumption; eauto.
+        { unfold first_byte. now rewrite H2. }
+        { intros k. unfold under. rewrite H2. cbn [tt_name].
+          destruct (strip_prefix (k0 :: key') k); [apply H3|reflexivity]. }
+        all: try (cbv zeta; repeat split; assumption).
+      * (* case 4 *)
+        destruct Hcmp as [Hk Hr].
+        assert (Hlen : (length rest < fuel)%nat).
+        { apply (f_equal (@length _)) in Hk. rewrite app_length in Hk. cbn in Hk, Hfuel. lia. }
+        destruct (IH rest f (TT (k0 :: lk') cv cch) G Hlen Hwc) as (I1 & I2 & I3).
+        { intros d Hd1 Hd2. apply Hf; [exact Hd1|]. intros r. rewrite Hd2, Hden, Hk.
+          unfold under. cbn [tt_name]. now rewrite <- app_assoc, strip_prefix_self. }
+        cbn [tt_name] in I2.
+        destruct (replace_child n v l1 (TT (k0 :: lk') cv cch) l2
+                    (tt_find_node_at_fuel fuel rest f (TT (k0 :: lk') cv cch)) k0 (k0 :: key') G)
+          as [R1 R2]; try assumption; eauto.
+        { unfold first_byte. now rewrite I2. }
+        { intros k. unfold under at 1. rewrite I2. rewrite Hk, strip_prefix_app.
+          unfold under. cbn [tt_name].
+          destruct (strip_prefix (k0 :: lk') k) as [k''|]; [|reflexivity].
+          rewrite I3. reflexivity. }
+        all: try (cbv zeta; repeat split; assumption).
+      * (* case 3 *)
+        destruct Hcmp as (Hlk & Hk & Hh).
+        assert (Ha : exists a', a = k0 :: a').
+        { destruct a as [|a0 a']; [|cbn in Hk; inversion Hk; eauto].
+          cbn in Hlk, Hk. subst b kr. cbn in Hh. congruence. }
+        destruct Ha as [a' ->].
+        assert (Hb : b <> []). { destruct b; [destruct Hh|discriminate]. }
+        set (newTn := TT (k0 :: a') 0 [TT b cv cch]).
+        assert (Hwn : tt_wf newTn).
+        { apply tt_wf_unfold. cbn. unfold first_byte. cbn. destruct b as [|b0 b']; [congruence|].
+          split; [split|].
+          - intros [H|H]; [discriminate|contradiction].
+          - constructor; [tauto|constructor].
+          - constructor; [|constructor]. exact Hwc. }
+        assert (Hstrip : forall r, strip_prefix b (kr ++ r) = None).
+        { intros r. destruct b as [|b0 b']; [congruence|]. destruct kr as [|y kr']; [destruct Hh|].
+          cbn [app]. apply strip_prefix_head. exact Hh. }
+        assert (Hlen : (length kr < fuel)%nat).
+        { apply (f_equal (@length _)) in Hk. rewrite app_length in Hk. cbn in Hk, Hfuel. lia. }
+        destruct (IH kr f newTn G Hlen Hwn) as (I1 & I2 & I3).
+        { intros d Hd1 Hd2. apply Hf; [exact Hd1|]. intros r. rewrite Hd2, Hden.
+          unfold newTn. rewrite tt_den_unfold, den_ch_cons. unfold under. cbn [tt_name].
+          rewrite Hk, Hlk, <- app_assoc, strip_prefix_app, strip_prefix_self, !Hstrip.
+          destruct (kr ++ r); cbn; lia. }
+        cbn [tt_name newTn] in I2.
+        destruct (replace_child n v l1 (TT (k0 :: lk') cv cch) l2
+                    (tt_find_node_at_fuel fuel kr f newTn) k0 (k0 :: key') G)
+          as [R1 R2]; try assumption; eauto.
+        { unfold first_byte. now rewrite I2. }
+        { intros k. unfold under at 1. rewrite I2. rewrite Hk, strip_prefix_app.
+          unfold under. cbn [tt_name]. rewrite Hlk, strip_prefix_app.
+          destruct (strip_prefix (k0 :: a') k) as [k''|]; [|reflexivity].
+          rewrite I3. destruct (strip_prefix kr k'') as [r|]; [reflexivity|].
+          unfold newTn. rewrite tt_den_unfold, den_ch_cons. unfold under. cbn [tt_name].
+          destruct (strip_prefix b k'') as [r'|].
+          - rewrite (same_children_den b (k0 :: lk')). destruct k''; cbn; lia.
+          - destruct k''; cbn; lia. }
+        all: try (cbv zeta; repeat split; assumption).
+      * (* case 3.2 *)
+        destruct Hcmp as [Hlk Hb].
+        set (newTn := TT (k0 :: key') 0 [TT b cv cch]).
+        assert (Hwn : tt_wf newTn).
+        { apply tt_wf_unfold. cbn. unfold first_byte. cbn. destruct b as [|b0 b']; [congruence|].
+          split; [split|].
+          - intros [H|H]; [discriminate|contradiction].
+          - constructor; [tauto|constructor].
+          - constructor; [|constructor]. exact Hwc. }
+        assert (Hfn : tt_find_node_at_fuel fuel [] f newTn = f newTn) by (destruct fuel; reflexivity).
+        rewrite Hfn.
+        destruct (Hf newTn Hwn) as (H1 & H2 & H3).
+        { intros r. rewrite Hden. unfold newTn. rewrite tt_den_unfold, den_ch_cons.
+          unfold under. cbn [tt_name]. rewrite Hlk, strip_prefix_app, strip_prefix_self.
+          destruct (strip_prefix b r) as [r'|].
+          - rewrite (same_children_den b (k0 :: key' ++ b)). destruct r; cbn; lia.
+          - destruct r; cbn; lia. }
+        cbn [tt_name newTn] in H2.
+        destruct (replace_child n v l1 (TT (k0 :: lk') cv cch) l2 (f newTn) k0 (k0 :: key') G)
+          as [R1 R2]; try assumption; eauto.
+        { unfold first_byte. now rewrite H2. }
+        { intros k. unfold under. rewrite H2. cbn [tt_name]. rewrite Hlk, strip_prefix_app.
+          destruct (strip_prefix (k0 :: key') k); [apply H3|reflexivity]. }
+        all: try (cbv zeta; repeat split; assumption).
+    + (* case 1: no lead *)
+      apply lead_split_none in EL.
+      pose proof Hwf as Hwf0.
+      apply tt_wf_unfold in Hwf. destruct Hwf as [[Hn Hd] Hall].
+      assert (Hzero : forall r, tt_den (TT n v ch) ((k0 :: key') ++ r) = 0).
+      { intros r. cbn [app]. rewrite tt_den_unfold, den_ch_other by assumption. cbn. lia. }
+      destruct (Hf (tt_new (k0 :: key'))) as (H1 & H2 & H3).
+      { apply tt_wf_unfold. cbn. split; [split; [tauto|constructor]|constructor]. }
+      { intros r. rewrite Hzero. unfold tt_new. rewrite tt_den_unfold. cbn. destruct r; reflexivity. }
+      cbn [tt_name tt_new] in H2.
+      unfold ch_insert_named. set (i := ch_pos (k0 :: key') ch).
+      set (x := f (tt_new (k0 :: key'))) in *.
+      assert (Hfx : first_byte x = Some k0) by (unfold first_byte; now rewrite H2).
+      split; [|split; [reflexivity|]].
+      * apply tt_wf_unfold. split; [split|].
+        -- intros H. eapply Permutation_in in H; [|apply fbs_insert_at_perm].
+           rewrite Hfx in H. destruct H as [H|H]; [discriminate|contradiction].
+        -- eapply Permutation_NoDup; [symmetry; apply fbs_insert_at_perm|].
+           rewrite Hfx. constructor; assumption.
+        -- unfold ch_insert_at. rewrite <- (firstn_skipn i ch) in Hall.
+           apply Forall_app in Hall. destruct Hall as [A1 A2].
+           apply Forall_app. split; [exact A1|]. constructor; assumption.
+      * intros k. rewrite tt_den_unfold, den_ch_insert_at. unfold under at 1. rewrite H2.
+        destruct (strip_prefix (k0 :: key') k) as [r|] eqn:E.
+        -- apply strip_prefix_some in E. subst k. rewrite H3.
+           specialize (Hzero r). rewrite tt_den_unfold in Hzero. cbn [app is_nil] in *. lia.
+        -- rewrite tt_den_unfold. lia.
+Qed.
+
+(* ---------------------------------------------------------------------------------------------- *)
+(* byte-string equality *)
+
+Lemma bcmp_eq a b : bcmp a b = Eq <-> a = b.
+Proof.
+  revert b. induction a as [|x a IH]; intros [|y b]; cbn; try (split; [discriminate|discriminate]); [tauto|].
+  destruct (N.compare_spec x y) as [->|H|H].
+  - rewrite IH. split; [now intros ->|now inversion 1].
+  - split; [discriminate|]. inversion 1; lia.
+  - split; [discriminate|]. inversion 1; lia.
+Qed.
+
+Lemma beqb_true_iff a b : beqb a b = true <-> a = b.
+Proof. unfold beqb. rewrite <- bcmp_eq. destruct (bcmp a b); split; congruence. Qed.
+
+Lemma beqb_refl a : beqb a a = true.
+Proof. now apply beqb_true_iff. Qed.
+
+(* ---------------------------------------------------------------------------------------------- *)
+(* Insert *)
+
+Lemma tt_set_value_wf v d : tt_wf d -> tt_wf (tt_set_value v d).
+Proof. destruct d; exact (fun H => H). Qed.
+
+Theorem tt_insert_spec key v merge t :
+  tt_wf t ->
+  tt_wf (tt_insert key v merge t) /\ tt_name (tt_insert key v merge t) = tt_name t /\
+  forall k, tt_den (tt_insert key v merge t) k =
+            if beqb k key then (if merge then tt_den t key + v else v) else tt_den t k.
+Proof.
+  intros Hwf. unfold tt_insert, tt_find_node_at.
+  set (f := fun tn : ttnode => if merge then tt_set_value (tt_value tn + v) tn else tt_set_value v tn).
+  set (G := fun r : bytes => if is_nil r then (if merge then tt_den t key + v else v) else tt_den t (key ++ r)).
+  destruct (find_node_at_spec (S (length key)) key f t G) as (H1 & H2 & H3); [lia|exact Hwf| |].
+  - intros d Hd Hr. split; [|split].
+    + unfold f. destruct merge; now apply tt_set_value_wf.
+    + unfold f. destruct merge, d; reflexivity.
+    + intros r. unfold G. pose proof (tt_den_nil d Hd) as Hnil.
+      pose proof (Hr []) as Hr0. rewrite app_nil_r in Hr0.
+      destruct d as [n dv ch]. apply tt_wf_unfold in Hd. destruct Hd as [[Hn _] _].
+      destruct r as [|r0 r].
+      * cbn [is_nil]. unfold f. cbn [tt_value tt_set_value] in *.
+        destruct merge; cbn [tt_set_value]; rewrite tt_den_unfold, den_ch_nil by assumption; cbn [is_nil]; lia.
+      * cbn [is_nil]. rewrite <- Hr. unfold f.
+        destruct merge; cbn [tt_set_value]; rewrite !tt_den_unfold; reflexivity.
+  - split; [exact H1|split; [exact H2|]]. intros k. rewrite H3.
+    destruct (beqb k key) eqn:E.
+    + apply beqb_true_iff in E. subst k.
+      assert (S0 : strip_prefix key key = Some []).
+      { pose proof (strip_prefix_self key []) as S0. now rewrite app_nil_r in S0. }
+      rewrite S0. reflexivity.
+    + destruct (strip_prefix key k) as [r|] eqn:S; [|reflexivity].
+      apply strip_prefix_some in S. subst k. unfold G. destruct r as [|r0 r]; [|reflexivity].
+      rewrite app_nil_r, beqb_refl in E. discriminate.
+Qed.
+
+(* counts of a key in a list of (key, count) *)
+Definition ms_count (ms : list (bytes * N)) (k : bytes) : N :=
+  sumN (map snd (filter (fun kv => beqb (fst kv) k) ms)).
+
+Lemma ms_count_cons kv ms k :
+  ms_count (kv :: ms) k = (if beqb (fst kv) k then snd kv else 0) + ms_count ms k.
+Proof. unfold ms_count. cbn [filter]. destruct (beqb (fst kv) k); reflexivity. Qed.
+
+Lemma beqb_sym a b : beqb a b = beqb b a.
+Proof.
+  destruct (beqb a b) eqn:E1, (beqb b a) eqn:E2; try reflexivity.
+  - apply beqb_true_iff in E1. subst. rewrite beqb_refl in E2. discriminate.
+  - apply beqb_true_iff in E2. subst. rewrite beqb_refl in E1. discriminate.
+Qed.
+
+Lemma tt_fold_insert_spec ms : forall t, tt_wf t ->
+  let t' := fold_left (fun t kv => tt_insert (fst kv) (snd kv) true t) ms t in
+  tt_wf t' /\ tt_name t' = tt_name t /\ forall k, tt_den t' k = tt_den t k + ms_count ms k.
+Proof.
+  induction ms as [|[key v] ms IH]; intros t Hwf; cbn [fold_left].
+  - repeat split; [exact Hwf|]. intros k. unfold ms_count. cbn. lia.
+  - destruct (tt_insert_spec key v true t Hwf) as (H1 & H2 & H3).
+    destruct (IH _ H1) as (I1 & I2 & I3). cbn [fst snd] in *.
+    split; [exact I1|split; [congruence|]]. intros k. rewrite I3, H3, ms_count_cons. cbn [fst snd].
+    rewrite (beqb_sym key k). destruct (beqb k key) eqn:E; [|lia].
+    apply beqb_true_iff in E. subst. lia.
+Qed.
+
+Lemma tt_empty_wf : tt_wf tt_empty.
+Proof. reflexivity. Qed.
+
+Theorem tt_of_multiset_spec ms :
+  tt_wf (tt_of_multiset ms) /\ tt_name (tt_of_multiset ms) = [] /\
+  forall k, tt_den (tt_of_multiset ms) k = ms_count ms k.
+Proof.
+  destruct (tt_fold_insert_spec ms tt_empty tt_empty_wf) as (H1 & H2 & H3).
+  split; [exact H1|split; [exact H2|]]. intros k. unfold tt_of_multiset. rewrite H3.
+  destruct k; reflexivity.
+Qed.
+
+(* ---------------------------------------------------------------------------------------------- *)
+(* induction on tries *)
+
+Fixpoint ttnode_ind' (P : ttnode -> Prop)
+  (H : forall n v ch, Forall P ch -> P (TT n v ch)) (t : ttnode) {struct t} : P t :=
+  match t with
+  | TT n v ch =>
+      H n v ch ((fix go (ch : list ttnode) : Forall P ch :=
+                   match ch with
+                   | [] => Forall_nil P
+                   | c :: r => Forall_cons c (ttnode_ind' P H c) (go r)
+                   end) ch)
+  end.
+
+(* ---------------------------------------------------------------------------------------------- *)
+(* Diff *)
+
+Lemma tt_clip_sub_spec sv d :
+  tt_clip_sub sv d = tt_set_value (tt_value d - sv) d.
+Proof.
+  unfold tt_clip_sub. destruct (N.ltb_spec (tt_value d) sv); [|reflexivity].
+  f_equal. lia.
+Qed.
+
+Lemma tt_diff_node_spec st : forall dt, tt_wf dt ->
+  tt_wf (tt_diff_node st dt) /\ tt_name (tt_diff_node st dt) = tt_name dt /\
+  forall k, tt_den (tt_diff_node st dt) k = tt_den dt k - den_ch (tt_ch st) k.
+Proof.
+  induction st as [sn sv sch IH] using ttnode_ind'. cbn [tt_diff_node tt_ch].
+  induction sch as [|c rest IHr]; intros dt Hwf.
+  - repeat split; [exact Hwf|]. intros k. cbn. lia.
+  - inversion IH as [|? ? IHc IHrest]; subst.
+    set (f := fun d : ttnode => tt_diff_node c (tt_clip_sub (tt_value c) d)).
+    set (G := fun r : bytes => tt_den dt (tt_name c ++ r) - tt_den c r).
+    destruct (find_node_at_spec (S (length (tt_name c))) (tt_name c) f dt G) as (H1 & H2 & H3);
+      [lia|exact Hwf| |].
+    + intros d Hd Hr. unfold f. rewrite tt_clip_sub_spec.
+      destruct (IHc (tt_set_value (tt_value d - tt_value c) d) (tt_set_value_wf _ _ Hd)) as (J1 & J2 & J3).
+      split; [exact J1|split]. { rewrite J2. destruct d; reflexivity. }
+      intros r. rewrite J3. unfold G. rewrite <- Hr. rewrite (tt_den_eq c r).
+      pose proof Hd as Hd'. destruct d as [dn dv dch]. apply tt_wf_unfold in Hd'. destruct Hd' as [[Hn _] _].
+      cbn [tt_set_value tt_value]. rewrite !tt_den_unfold.
+      destruct r as [|r0 r]; cbn [is_nil].
+      * rewrite (den_ch_nil dch) by assumption. lia.
+      * lia.
+    + fold (tt_find_node_at (tt_name c) f dt) in *.
+      destruct (IHr IHrest _ H1) as (K1 & K2 & K3).
+      split; [exact K1|split; [congruence|]]. intros k. rewrite K3, H3, den_ch_cons.
+      unfold G, under. destruct (strip_prefix (tt_name c) k) as [r|] eqn:S.
+      * apply strip_prefix_some in S. subst k. lia.
+      * lia.
+Qed.
+
+Theorem tt_diff_spec cur prev :
+  tt_wf cur ->
+  tt_wf (tt_diff cur prev) /\ tt_name (tt_diff cur prev) = tt_name cur /\
+  forall k, k <> [] -> tt_den (tt_diff cur prev) k = tt_den cur k - tt_den prev k.
+Proof.
+  intros Hwf. destruct (tt_diff_node_spec prev cur Hwf) as (H1 & H2 & H3).
+  split; [exact H1|split; [exact H2|]]. intros k Hk. unfold tt_diff. rewrite H3, (tt_den_eq prev k).
+  destruct k; [congruence|]. cbn [is_nil]. lia.
+Qed.
+
+(* the value under the empty key (the root's own value) is not visited by Diff *)
+Lemma tt_diff_root cur prev : tt_wf cur -> tt_wf prev ->
+  tt_den (tt_diff cur prev) [] = tt_den cur [].
+Proof.
+  intros Hwf Hwp. destruct (tt_diff_node_spec prev cur Hwf) as (_ & _ & H3).
+  unfold tt_diff. rewrite H3. destruct prev as [pn pv pch]. apply tt_wf_unfold in Hwp.
+  destruct Hwp as [[Hn _] _]. cbn [tt_ch]. rewrite den_ch_nil by assumption. lia.
+Qed.
+
+(* ---------------------------------------------------------------------------------------------- *)
+(* Iterate *)
+
+Lemma in_flat_map_iff {A B} (f : A -> list B) l y : In y (flat_map f l) <-> exists x, In x l /\ In y (f x).
+Proof. apply in_flat_map. Qed.
+
+(* every reported pair is (full key, value stored under it) *)
+Lemma tt_iter_all_sound t : forall p K v, tt_wf t -> In (K, v) (tt_iter_all p t) ->
+  exists k, K = p ++ tt_name t ++ k /\ tt_den t k = v.
+Proof.
+  induction t as [n tv ch IH] using ttnode_ind'. intros p K v Hwf Hin.
+  pose proof Hwf as Hwf0. apply tt_wf_unfold in Hwf. destruct Hwf as [[Hn Hd] Hall].
+  cbn [tt_iter_all] in Hin. destruct Hin as [Hin|Hin].
+  - inversion Hin; subst. exists []. cbn [tt_name]. rewrite app_nil_r. split; [reflexivity|].
+    now rewrite (tt_den_nil _ Hwf0).
+  - apply in_flat_map in Hin. destruct Hin as (c & Hc & Hin).
+    apply in_split in Hc. destruct Hc as (l1 & l2 & ->).
+    apply Forall_app in IH. destruct IH as [_ IH]. inversion IH as [|? ? IHc _]; subst.
+    apply Forall_app in Hall. destruct Hall as [_ Hall]. inversion Hall as [|? ? Hwc _]; subst.
+    destruct (IHc _ _ _ Hwc Hin) as (k & -> & Hk).
+    exists (tt_name c ++ k). cbn [tt_name]. split; [now rewrite <- !app_assoc|].
+    destruct (tt_name c) as [|b nm] eqn:En.
+    + exfalso. apply Hn. rewrite fbs_app. apply in_or_app. right. left. unfold first_byte. now rewrite En.
+    + cbn [app]. rewrite (den_via_lead n tv l1 c l2 b (nm ++ k) Hwf0).
+      * unfold under. rewrite En. change (b :: nm ++ k) with ((b :: nm) ++ k).
+        now rewrite strip_prefix_self.
+      * unfold first_byte. now rewrite En.
+Qed.
+
+(* a positive value under a key is reported *)
+Lemma den_ch_pos ch k : 0 < den_ch ch k -> exists c, In c ch /\ 0 < under c k.
+Proof.
+  induction ch as [|c ch IH]; intros H; [cbn in H; lia|].
+  rewrite den_ch_cons in H. destruct (N.ltb_spec 0 (under c k)).
+  - exists c. split; [now left|assumption].
+  - destruct IH as (c' & Hc' & Hp); [lia|]. exists c'. split; [now right|assumption].
+Qed.
+
+Lemma tt_iter_all_complete t : forall p k, tt_wf t -> 0 < tt_den t k ->
+  In (p ++ tt_name t ++ k, tt_den t k) (tt_iter_all p t).
+Proof.
+  induction t as [n tv ch IH] using ttnode_ind'. intros p k Hwf Hpos.
+  pose proof Hwf as Hwf0. apply tt_wf_unfold in Hwf. destruct Hwf as [[Hn Hd] Hall].
+  cbn [tt_iter_all tt_name]. destruct k as [|b k].
+  - left. rewrite (tt_den_nil _ Hwf0), app_nil_r. reflexivity.
+  - right. rewrite tt_den_unfold in Hpos. cbn [is_nil] in Hpos.
+    destruct (den_ch_pos ch (b :: k)) as (c & Hc & Hp); [lia|].
+    apply in_split in Hc. destruct Hc as (l1 & l2 & ->).
+    assert (Hfc : first_byte c = Some b).
+    { unfold under in Hp. unfold first_byte. destruct (tt_name c) as [|x nm] eqn:En.
+      - exfalso. apply Hn. rewrite fbs_app. apply in_or_app. right. left. unfold first_byte. now rewrite En.
+      - cbn in Hp. destruct (N.eqb_spec x b) as [->|]; [reflexivity|lia]. }
+    rewrite (den_via_lead n tv l1 c l2 b k Hwf0 Hfc).
+    apply Forall_app in IH. destruct IH as [_ IH]. inversion IH as [|? ? IHc _]; subst.
+    apply Forall_app in Hall. destruct Hall as [_ Hall]. inversion Hall as [|? ? Hwc _]; subst.
+    unfold under in *. destruct (strip_prefix (tt_name c) (b :: k)) as [r|] eqn:S; [|lia].
+    apply strip_prefix_some in S. rewrite S.
+    apply in_flat_map. exists c. split; [apply in_or_app; right; now left|].
+    specialize (IHc (p ++ n) r Hwc Hp). now rewrite <- !app_assoc in IHc.
+Qed.
+
+Theorem tt_iterate_spec t K v : tt_wf t -> tt_name t = [] ->
+  (In (K, v) (tt_iterate t) <-> (0 < v /\ tt_den t K = v)).
+Proof.
+  intros Hwf Hroot. unfold tt_iterate. rewrite filter_In. cbn [snd]. split.
+  - intros [Hin Hp]. destruct (tt_iter_all_sound t [] K v Hwf Hin) as (k & -> & Hk).
+    rewrite Hroot. cbn [app]. split; [lia|exact Hk].
+  - intros [Hp Hk]. split; [|lia]. subst v.
+    pose proof (tt_iter_all_complete t [] K Hwf Hp) as H. now rewrite Hroot in H.
+Qed.
+
+(* ---------------------------------------------------------------------------------------------- *)
+(* headline forms for C18 *)
+
+Lemma ttrie_den_insert : forall key v merge t, tt_wf t ->
+  tt_wf (tt_insert key v merge t) /\
+  forall k, tt_den (tt_insert key v merge t) k =
+            if beqb k key then (if merge then tt_den t key + v else v) else tt_den t k.
+Proof. intros key v merge t H. destruct (tt_insert_spec key v merge t H) as (A & _ & B). now split. Qed.
+
+Lemma ttrie_insert_accumulates : forall ms,
+  tt_wf (tt_of_multiset ms) /\ forall k, tt_den (tt_of_multiset ms) k = ms_count ms k.
+Proof. intros ms. destruct (tt_of_multiset_spec ms) as (A & _ & B). now split. Qed.
+
+Lemma ttrie_diff_den : forall cur prev, tt_wf cur ->
+  tt_wf (tt_diff cur prev) /\
+  forall k, k <> [] -> tt_den (tt_diff cur prev) k = tt_den cur k - tt_den prev k.
+Proof. intros cur prev H. destruct (tt_diff_spec cur prev H) as (A & _ & B). now split. Qed.
+
+(* what the agent uploads: Iterate over the diff reports exactly the positive clipped differences *)
+Lemma ttrie_diff_iterate : forall cur prev K v, tt_wf cur -> tt_name cur = [] -> K <> [] ->
+  (In (K, v) (tt_iterate (tt_diff cur prev)) <-> (0 < v /\ v = tt_den cur K - tt_den prev K)).
+Proof.
+  intros cur prev K v Hwf Hroot HK.
+  destruct (tt_diff_spec cur prev Hwf) as (A & B & C).
+  rewrite tt_iterate_spec by (assumption || congruence). rewrite (C K HK). split; intros [H1 H2]; split; congruence.
+Qed.
+
+Lemma ttrie_prev_only_silent : forall cur prev K, tt_wf cur -> tt_name cur = [] -> K <> [] ->
+  tt_den cur K = 0 -> forall v, ~ In (K, v) (tt_iterate (tt_diff cur prev)).
+Proof.
+  intros cur prev K Hwf Hroot HK Hz v Hin.
+  apply ttrie_diff_iterate in Hin; try assumption. lia.
+Qed.
+
+Lemma ttrie_diff_empty_key_untouched : forall cur prev, tt_wf cur -> tt_wf prev ->
+  tt_den (tt_diff cur prev) [] = tt_den cur [].
+Proof. exact tt_diff_root. Qed.
+
+Lemma ttrie_diff_empty_key_refuted :
+  exists cur prev, tt_wf cur /\ tt_wf prev /\
+    tt_den (tt_diff cur prev) [] <> tt_den cur [] - tt_den prev [].
+Proof.
+  exists (tt_of_multiset [([], 5); ([97], 4)]), (tt_of_multiset [([], 3); ([97], 1)]).
+  split; [reflexivity|split; [reflexivity|]]. vm_compute. discriminate.
+Qed.
